@@ -8,6 +8,15 @@
 (*                  deadline                                               *)
 (*   s  server op   - recv sethdr sendhdr send settrl return wait          *)
 (*   v  message value / status text, md metadata token, code status code  *)
+(*   x  variant that must not matter: on cancel / deadline, 1 = the caller's *)
+(*      context carries a cause of its own (WithCancelCause,                *)
+(*      WithTimeoutCause): a connection reports the class of the end, never *)
+(*      the cause; on sethdr / sendhdr / settrl, bit 0 = through the        *)
+(*      context helpers (grpc.SetHeader(ctx, ..)), bit 1 = the handler      *)
+(*      recycles the metadata.MD object of its previous metadata op.  The   *)
+(*      handler always keeps writing to the MD objects it has handed over,  *)
+(*      the client to the ones it was handed: metadata is copied across the *)
+(*      boundary like messages are, so none of that shows anywhere.         *)
 (*   j  the client's blocking op (recv, header, invoke) completes in this  *)
 (*      step; a blocking op with j = FALSE stays pending over the next     *)
 (*      steps (the client is blocked while the server carries on)          *)
@@ -66,7 +75,7 @@ New(shape, req) ==
    hs |-> NoMD, hsent |-> FALSE, hvis |-> NoMD, hknown |-> FALSE, tr |-> NoMD,
    resp |-> 0, ssent |-> <<>>, inflight |-> <<>>, creq |-> <<>>,
    ret |-> FALSE, rcode |-> "", rv |-> 0,
-   cx |-> "no", retAtCx |-> FALSE, entAtCx |-> FALSE, sawCx |-> FALSE, waited |-> FALSE, hlate |-> {}, sfl |-> FALSE, hcx |-> 0,
+   cx |-> "no", retAtCx |-> FALSE, entAtCx |-> FALSE, sawCx |-> FALSE, waited |-> FALSE, hlate |-> {}, sfl |-> FALSE, hcx |-> 0, cause |-> FALSE,
    pend |-> "-", term |-> NoTerm, src |-> "-",
    msgs |-> <<>>, hdrs |-> <<>>, trls |-> <<>>, srecv |-> <<>>]
 
@@ -124,7 +133,8 @@ ClientStart(st, e) ==
            \* (a deadline also expires on the server, which then ends the call itself and may
            \*  flush the header metadata set so far together with its DeadlineExceeded status)
            LET b == IF e.c = "deadline" /\ st.ent THEN Flush(st) ELSE st IN
-           EndPending([b EXCEPT !.cx = IF e.c = "cancel" THEN "Canceled" ELSE "DeadlineExceeded",
+           \* (e.x = 1: the context has a cause; CtxTerm does not look at it)
+           EndPending([b EXCEPT !.cx = IF e.c = "cancel" THEN "Canceled" ELSE "DeadlineExceeded", !.cause = (e.x = 1),
                                 !.retAtCx = st.ret /\ ~st.term.has, !.entAtCx = st.ent])
   ELSE
     CASE e.c = "-" -> {st}
@@ -212,7 +222,7 @@ Transcript(st) ==
    reqmd |-> IF st.ent /\ (st.cx = "no" \/ st.entAtCx) THEN st.req ELSE -2]
 
 ----------------------------------------------------------------------------
-(* Grammar of well-matched scripts.  D = [vals, mds, codes, xs, maxc, maxs, dl] *)
+(* Grammar of well-matched scripts.  D = [vals, mds, codes, xs, causes, maxc, maxs, dl] *)
 
 Legal(st, D) ==
   LET shape == st.shape
@@ -225,10 +235,11 @@ Legal(st, D) ==
       streamy == shape # "unary"
       started == shape = "ustream" => st.csent = 1
       Ends == {"cancel"} \cup (IF D.dl THEN {"deadline"} ELSE {})
+      K(E) == { [e EXCEPT !.x = k] : e \in E, k \in D.causes }      \* with and without a cause
   IN
   \* ---- opening the call (possibly with a context that is already cancelled)
   (IF ~st.opened THEN
-     (IF st.cx = "no" THEN {S("cancel", "-")} ELSE {})
+     (IF st.cx = "no" THEN K({S("cancel", "-")}) ELSE {})
      \cup (CASE shape = "unary" -> IF st.cx = "no" THEN V(S("invoke", "recv")) ELSE {S("invoke", "-")}
              [] shape = "sstream" -> IF st.cx = "no" THEN V(S("open", "recv")) ELSE V(S("open", "-"))
              [] OTHER -> {S("open", "-")})
@@ -264,10 +275,10 @@ Legal(st, D) ==
      \cup (IF streamy /\ free /\ st.term.has THEN {S("trailer", "-")} ELSE {})
      \* the end of the client's context, alone or while the handler is in an op of its own
      \cup (IF ~st.term.has /\ started THEN
-             { S(c, "-") : c \in Ends }
-             \cup (IF srun THEN { S(c, "wait") : c \in Ends } ELSE {})
-             \cup (IF srun /\ free /\ shape \in {"cstream", "bidi"} /\ ~st.seof THEN { S(c, "recv") : c \in Ends } ELSE {})
-             \cup (IF srun /\ free /\ Multi(shape) THEN UNION { V(S(c, "send")) : c \in Ends } ELSE {})
+             K({ S(c, "-") : c \in Ends }
+               \cup (IF srun THEN { S(c, "wait") : c \in Ends } ELSE {})
+               \cup (IF srun /\ free /\ shape \in {"cstream", "bidi"} /\ ~st.seof THEN { S(c, "recv") : c \in Ends } ELSE {})
+               \cup (IF srun /\ free /\ Multi(shape) THEN UNION { V(S(c, "send")) : c \in Ends } ELSE {}))
            ELSE {})
    ELSE {})
   \cup
